@@ -7,7 +7,7 @@
 (* for the unbounded domains, and the pair events of the relational        *)
 (* clauses (x,-x), (x, x + k*period), (x, x + delta).                      *)
 (***************************************************************************)
-EXTENDS FxGen
+EXTENDS FxGen, FxFloat
 
 Phi == ZN(205887)
 HalfPhi == ZN(102944)
@@ -113,7 +113,65 @@ Jobs_C20 ==
       \o FlatSeq([f \in 1..3 |-> <<Sweep(<<"sin_angle", "cos_angle", "tan_angle">>[f], tg, ZMax(TMin(t), ZN(-360)), ZMin(TMax(t), ZN(360)), 1)>>])])
    \o FlatSeq([f \in 1..3 |-> <<SweepZ(<<"sin_angle", "cos_angle", "tan_angle">>[f], "fx", ZN(-360) ** OneFx, ZN(360) ** OneFx, OneFx)>>])
 
+(* ---- C05 ------------------------------------------------------------------------------------------ *)
+B32(sg, E, M) == (IF sg = 1 THEN P(31) ELSE Z0) ++ ZShl(ZN(E), 23) ++ M
+B64(sg, E, M) == (IF sg = 1 THEN P(63) ELSE Z0) ++ ZShl(ZN(E), 52) ++ M
+M32 == {Z0, Z1, P(23) -- Z1, P(22), P(22) -- Z1, P(22) ++ Z1, P(7), P(7) ++ Z1, P(15) ++ P(3)}
+M64 == {Z0, Z1, P(52) -- Z1, P(51), P(51) -- Z1, P(51) ++ Z1, P(36), P(36) ++ Z1, P(35), P(20) ++ P(3), P(5), P(4) ++ Z1}
+E64 == {0, 1, 2, 2046, 2047} \cup (960..1072)
+CallF(op, tag, bits, via) == [Call(op, <<tag>>, <<Z0>>) EXCEPT !.a = <<ZToLimbs(bits, 4)>>, !.via = via]
+(* exact dyadic values written as floats by the spec itself *)
+FV(fmt, s, n, e) == FEncode(fmt, FRound(fmt, s, n, e))
+TieN == {ZN(1), ZN(3), ZN(5), ZN(255), ZN(65535), ZN(65537), P(23) ++ Z1, P(24) -- Z1, P(31) -- Z1, P(40) ++ Z1, P(46) ++ Z1, P(47) -- Z1}
+Jobs_C05 ==
+   S2Q({CallF("fl2f", "f32", B32(sg, E, M), via) : sg \in {0, 1}, E \in 0..255, M \in M32, via \in {"", "ctor"}})
+   \o S2Q({CallF("fl2f", "f64", B64(sg, E, M), via) : sg \in {0, 1}, E \in E64, M \in M64, via \in {""}})
+   \o S2Q({CallF("fl2f", "f64", B64(sg, E, M), "ctor") : sg \in {0, 1}, E \in 1000..1060, M \in {Z0, P(51), P(52) -- Z1}})
+   (* ties: (n + 1/2) / 2^16 = (2n+1) * 2^-17, and their neighbours, both formats *)
+   \o S2Q({CallF("fl2f", "f64", FV(F64, s, (n ** ZN(2)) ++ Z1, -17) ++ d, "") : s \in {1, -1}, n \in TieN, d \in {Z0, Z1, ZN(-1)}})
+   \o S2Q({CallF("fl2f", "f32", FV(F32, s, (n ** ZN(2)) ++ Z1, -17) ++ d, "") : s \in {1, -1}, n \in TieN, d \in {Z0, Z1, ZN(-1)}})
+   \o S2Q({CallF("fl2f", tg, FV(IF tg = "f32" THEN F32 ELSE F64, s, MaxIntegral ++ ZN(k), 0) ++ d, "") :
+            tg \in {"f32", "f64"}, s \in {1, -1}, k \in (-2)..2, d \in {Z0, Z1, ZN(-1)}})
+   \o <<Rand("fl2f", <<"f32">>, NR(15000, 600000), Seed + 1), Rand("fl2f", <<"f64">>, NR(15000, 600000), Seed + 2),
+        [Rand("fl2f", <<"f32">>, NR(2000, 100000), Seed + 3) EXCEPT !.via = "ctor"], [Rand("fl2f", <<"f64">>, NR(2000, 100000), Seed + 4) EXCEPT !.via = "ctor"],
+        Sweep("f2d", "fx", ZNeg(P(16)), P(16), NR(7, 1)), Sweep("f2f", "fx", ZNeg(P(16)), P(16), NR(7, 1)),
+        Sweep("f2f", "fx", P(24) -- ZN(300), P(24) ++ ZN(3000), 1), Sweep("f2f", "fx", P(25) -- ZN(300), P(25) ++ ZN(3000), 1),
+        Sweep("f2f", "fx", ZNeg(P(26)) -- ZN(3000), ZNeg(P(26)) ++ ZN(300), 1),
+        Sweep("f2d", "fx", P(53) -- ZN(500), P(53) ++ ZN(1500), 1), Sweep("f2d", "fx", ZNeg(P(53)) -- ZN(500), ZNeg(P(53)) ++ ZN(500), 1),
+        Rand("f2d", <<"fx">>, NR(8000, 300000), Seed + 5), Rand("f2f", <<"fx">>, NR(8000, 300000), Seed + 6),
+        [Rand("f2d", <<"fx">>, NR(2000, 50000), Seed + 7) EXCEPT !.via = "cast"], [Rand("f2f", <<"fx">>, NR(2000, 50000), Seed + 8) EXCEPT !.via = "cast"],
+        RandB("rt_d", <<"fx">>, NR(10000, 400000), Seed + 9, 47), Sweep("rt_d", "fx", ZNeg(P(17)), P(17), NR(11, 1)),
+        Sweep("rt_d", "fx", DomLim -- ZN(2000), DomLim -- Z1, 1), Sweep("rt_d", "fx", ZNeg(DomLim) ++ Z1, ZNeg(DomLim) ++ ZN(2000), 1)>>
+   \o S2Q({Call(op, <<"fx">>, <<x>>) : op \in {"f2d", "f2f", "rt_d"}, x \in LmFinite})
+
+(* ---- C16 ------------------------------------------------------------------------------------------ *)
+FxC16 == IF Thorough THEN PM({Z0, Z1, ZN(65535), ZN(65536), ZN(98304), ZN(3) ** OneFx, P(31), P(32), P(46), P(47) -- Z1, P(47), P(48), P(55), P(56), P(62), Maxv,
+                              Maxv -- ZN(65536), MaxIntegral ** OneFx})
+         ELSE PM({Z0, Z1, ZN(98304), P(32), P(47) -- Z1, P(48), P(56), Maxv})
+F32Vals == {FV(F32, s, n, e) : s \in {1, -1}, n \in {Z0, Z1, ZN(3), ZN(5), P(23) ++ Z1, P(24) -- Z1}, e \in {-17, -16, -1, 0, 7, 8, 20}}
+           \cup {B32(0, 255, Z0), B32(1, 255, Z0), B32(0, 255, Z1), B32(0, 158, Z0), B32(0, 157, P(23) -- Z1), B32(1, 158, Z0)}
+F64Vals == {FV(F64, s, n, e) : s \in {1, -1}, n \in {Z0, Z1, ZN(3), ZN(5), P(52) ++ Z1, P(53) -- Z1}, e \in {-40, -17, -16, -1, 0, 7, 30}}
+           \cup {B64(0, 2047, Z0), B64(1, 2047, Z0), B64(0, 2047, Z1), B64(0, 1, Z0), B64(0, 2046, P(52) -- Z1)}
+Ops4 == {"add", "sub", "mul", "div"}
+CallM(op, t, a, asg) == [Call(op, t, <<Z0, Z0>>) EXCEPT !.a = a, !.asg = asg]
+Jobs_C16 ==
+   FlatSeq([i \in 1..NT |-> LET tg == IntTagsG[i] IN
+      S2Q({CallM(op, <<"fx", tg>>, <<Enc(x), Enc(n)>>, asg) : op \in Ops4, x \in FxC16, n \in IntLm(tg), asg \in {0, 1}})
+      \o S2Q({CallM(op, <<tg, "fx">>, <<Enc(n), Enc(x)>>, 0) : op \in Ops4, x \in FxC16, n \in IntLm(tg)})
+      \o FlatSeq([o \in 1..4 |-> <<Rand(<<"add", "sub", "mul", "div">>[o], <<"fx", tg>>, NR(300, 20000), Seed + 10 * i + o),
+                                   Rand(<<"add", "sub", "mul", "div">>[o], <<tg, "fx">>, NR(300, 20000), Seed + 10 * i + o + 4),
+                                   [Rand(<<"add", "sub", "mul", "div">>[o], <<"fx", tg>>, NR(150, 10000), Seed + 10 * i + o + 8) EXCEPT !.asg = 1]>>])])
+   \o S2Q({CallM(op, <<"fx", "f32">>, <<Enc(x), ZToLimbs(f, 4)>>, asg) : op \in Ops4, x \in FxC16, f \in F32Vals, asg \in {0, 1}})
+   \o S2Q({CallM(op, <<"f32", "fx">>, <<ZToLimbs(f, 4), Enc(x)>>, 0) : op \in Ops4, x \in FxC16, f \in F32Vals})
+   \o S2Q({CallM(op, <<"fx", "f64">>, <<Enc(x), ZToLimbs(f, 4)>>, 0) : op \in Ops4, x \in FxC16, f \in F64Vals})
+   \o S2Q({CallM(op, <<"f64", "fx">>, <<ZToLimbs(f, 4), Enc(x)>>, 0) : op \in Ops4, x \in FxC16, f \in F64Vals})
+   \o FlatSeq([o \in 1..4 |-> LET op == <<"add", "sub", "mul", "div">>[o] IN
+         <<Rand(op, <<"fx", "f32">>, NR(2000, 80000), Seed + 200 + o), Rand(op, <<"f32", "fx">>, NR(2000, 80000), Seed + 210 + o),
+           Rand(op, <<"fx", "f64">>, NR(3000, 100000), Seed + 220 + o), Rand(op, <<"f64", "fx">>, NR(3000, 100000), Seed + 230 + o),
+           [Rand(op, <<"fx", "f32">>, NR(1000, 30000), Seed + 240 + o) EXCEPT !.asg = 1]>>])
+
 JobsForT(p) ==
    CASE p = "C09" -> Jobs_C09 [] p = "C10" -> Jobs_C10 [] p = "C11" -> Jobs_C11 [] p = "C12" -> Jobs_C12
      [] p = "C14" -> Jobs_C14 [] p = "C19" -> Jobs_C19 [] p = "C20" -> Jobs_C20
+     [] p = "C05" -> Jobs_C05 [] p = "C16" -> Jobs_C16
 =============================================================================
